@@ -350,7 +350,7 @@ Definition canon_mzprogs (sch : schema) (mid : nat) : mzprogs :=
     [MZReturn (MZNilFast mid)]
     [MZReturn (MZNewFast mid)]
     [MZReturn (MZMdVar mid)].
-(* slowProtoReflect of the message that stands at position k of its file's message list (depth first, map entries counted) *)
+(* slowProtoReflect of the message that stands at position k of its file's message list (top-level messages first, then the children of every message, depth first; map entries counted) *)
 Definition canon_mzslow (k : nat) : mzslow := MZSlow k.
 
 (* ---- the Methods table as a decidable statement ------------------------------------------------------------------------ *)
